@@ -692,10 +692,16 @@ func cpuTime() time.Duration {
 func sutSpinning(dump string) string {
 	for _, blk := range strings.Split(dump, "\n\n") {
 		lines := strings.Split(blk, "\n")
-		if len(lines) < 2 || !strings.Contains(lines[0], "synctest bubble") {
+		if len(lines) < 2 {
 			continue
 		}
 		if !strings.Contains(lines[0], "[running") && !strings.Contains(lines[0], "[runnable") {
+			continue
+		}
+		// goroutines of a bubble: the header says so for most states, but not for
+		// one that was preempted while runnable; those are recognised by what
+		// they run (the watchdog itself is the only other one that is running)
+		if !strings.Contains(lines[0], "synctest bubble") && (strings.Contains(blk, "verifsim.watchdog") || !strings.Contains(blk, "github.com/superfly/litefs")) {
 			continue
 		}
 		for _, l := range lines[1:] {
